@@ -834,6 +834,13 @@ func (runInfo *runInfoStruct) runDeferStmt(stmt *ast.DeferStmt) {
 // unless the run already failed with a real error.
 func (runInfo *runInfoStruct) runDefers() {
 	rv, err := runInfo.rv, runInfo.err
+	if rv.IsValid() && rv.CanAddr() {
+		// the result is an element or a field that a deferred call could still assign to:
+		// the deferred calls must not change what was returned
+		held := reflect.New(rv.Type()).Elem()
+		held.Set(rv)
+		rv = held
+	}
 	defers := runInfo.defers
 	runInfo.defers = nil
 	for i := len(defers) - 1; i >= 0; i-- {
